@@ -2456,6 +2456,9 @@ def insert(arr, obj, values, axis):
     elif scalar_obj:
         values = values[(slice(None),) * axis + (None,)]
 
+    # like np.insert: values are converted to the type of arr
+    values = values.astype(arr.dtype)
+
     values_chunks = tuple(
         values_bd if axis == n else arr_bd
         for n, (arr_bd, values_bd) in enumerate(zip(arr.chunks, values.chunks))
